@@ -69,13 +69,13 @@ impl Path {
             }
         }
 
-        let cs_cell = OnceCell::new();
-        let _ = cs_cell.set(cs);
-
+        // The text form is always rebuilt from the components (lazily): caching the
+        // given text here dropped the leading dot of relative paths, so such a path
+        // printed as an absolute one and hashed differently from an equal path.
         Path {
             components,
             is_relative,
-            components_string: cs_cell,
+            components_string: OnceCell::new(),
         }
     }
 
